@@ -175,6 +175,17 @@ pub fn check_text(text: &str, st: &mut Stats) -> Result<bool, Failure> {
     Ok(true)
 }
 
+/// for the fuzz target: known findings listed in known_findings.json are tolerated (loaded once)
+pub fn check_text_tolerant(text: &str, st: &mut Stats) -> Result<bool, Failure> {
+    static INIT: std::sync::Once = std::sync::Once::new();
+    INIT.call_once(|| {
+        let f = crate::engine::load_findings();
+        KNOWN_F3.store(crate::engine::is_known(&f, "C15", "F3"), std::sync::atomic::Ordering::Relaxed);
+        KNOWN_F14.store(crate::engine::is_known(&f, "C15", "F14"), std::sync::atomic::Ordering::Relaxed);
+    });
+    check_text(text, st)
+}
+
 fn multibyte_cfg(t: &mut Tape) -> GenCfg {
     let mut cfg = GenCfg::default();
     cfg.f11_safe = false;
